@@ -104,6 +104,9 @@ pub struct WorldSpec {
     pub limits: LimitsSpec,
     /// build reference engines by full rebuild (true) or by deep-cloning a pristine prototype (false)
     pub fresh_rebuild: bool,
+    /// TopLevelGrammar.max_tokens: total token budget of a Rust engine (refunded by rollback)
+    #[serde(default, skip_serializing_if = "Option::is_none")]
+    pub max_tokens: Option<usize>,
 }
 
 // ------------------------------------------------------------------ tokenizer stub
@@ -232,6 +235,31 @@ fn push_specials(words: &mut Vec<Vec<u8>>) -> u32 {
         words.push(w);
     }
     (words.len() - 1) as u32
+}
+
+/// Pad a vocabulary with filler tokens (byte strings no grammar produces) in front of the special
+/// tokens, so that these get the ids `base..base+4`: ids at a power of ten are where the decimal
+/// `\xFF[id]` spelling of a special token changes length.
+pub fn pad_vocab(v: &mut VocabSpec, base: usize) {
+    let n = v.words.len();
+    let cur = n - SPECIALS.len();
+    if cur >= base {
+        return;
+    }
+    let specials: Vec<String> = v.words.split_off(cur);
+    let mut k = 0usize;
+    while v.words.len() < base {
+        // 0xF5.. never occurs in UTF-8; three bytes keep them out of the way of byte-level grammars too
+        let w = vec![0xf5u8, 0x80 + (k / 64) as u8 % 64, 0x80 + (k % 64) as u8];
+        v.words.push(hex(&w));
+        k += 1;
+    }
+    v.words.extend(specials);
+    let shift = (base - cur) as u32;
+    v.eos += shift;
+    for e in v.eos_extra.iter_mut() {
+        *e += shift;
+    }
 }
 
 pub fn byte_vocab() -> VocabSpec {
@@ -440,7 +468,8 @@ impl World {
     pub fn build(spec: &WorldSpec) -> Result<World> {
         let tok_env = make_tok_env(&spec.vocab, spec.canonical);
         let factory = make_factory(&tok_env, &spec.slices, &spec.limits, false)?;
-        let grammar = top_level_grammar(spec.grammar_kind, &spec.grammar_text)?;
+        let mut grammar = top_level_grammar(spec.grammar_kind, &spec.grammar_text)?;
+        grammar.max_tokens = spec.max_tokens;
         Ok(World {
             spec: spec.clone(),
             tok_env,
@@ -492,6 +521,23 @@ impl World {
 }
 
 // ------------------------------------------------------------------ byte-level sampling (used to derive synthetic vocabularies)
+
+/// does the grammar build (byte vocabulary, default limits)? Used by generators of random grammars
+/// that are meant to be valid: one that does not build is not used.
+pub fn grammar_constructs(kind: GKind, text: &str) -> bool {
+    let v = byte_vocab();
+    let env = make_tok_env(&v, false);
+    let fac = match make_factory(&env, &Some(vec![]), &LimitsSpec::default(), false) {
+        Ok(f) => f,
+        Err(_) => return false,
+    };
+    let g = match top_level_grammar(kind, &instantiate_grammar_text(text, &v)) {
+        Ok(g) => g,
+        Err(_) => return false,
+    };
+    let mut m = Matcher::new(fac.create_parser(g));
+    !m.is_error() && m.compute_mask().is_ok()
+}
 
 pub fn sample_texts(kind: GKind, text: &str, rng: &mut Rng, n: usize, max_len: usize) -> Vec<Vec<u8>> {
     let v = byte_vocab();
@@ -604,6 +650,28 @@ pub fn probe(name: &str) -> Result<()> {
             println!("validate([256]) = {:?}", m.validate_tokens(&[256]).map_err(|e| e.to_string()));
             println!("consume(256) = {:?}", m.consume_token(256).map_err(|e| e.to_string()));
             println!("mask = {:?}", m.compute_mask().map(|m| m.to_list()).map_err(|e| e.to_string()));
+        }
+        "rollback_captures" => {
+            let v = byte_vocab();
+            let env = make_tok_env(&v, false);
+            let fac = make_factory(&env, &Some(vec![]), &LimitsSpec::default(), false)?;
+            let g = top_level_grammar(GKind::Lark, "start: one \"-\" (two | three)\none[capture]: /[a-z]+/\ntwo[capture]: /[0-9]+/ \";\"\nthree[capture]: /[A-Z]+/ \";\"")?;
+            let mut m = Matcher::new(fac.create_parser(g.clone()));
+            for b in b"ab-12;" {
+                m.consume_token(*b as u32)?;
+            }
+            println!("after 'ab-12;': captures = {:?}", m.captures().iter().map(|(k, v)| (k.clone(), String::from_utf8_lossy(v).to_string())).collect::<Vec<_>>());
+            m.rollback(3)?;
+            println!("after rollback(3) [text 'ab-']: captures = {:?}", m.captures().iter().map(|(k, v)| (k.clone(), String::from_utf8_lossy(v).to_string())).collect::<Vec<_>>());
+            for b in b"XY;" {
+                m.consume_token(*b as u32)?;
+            }
+            println!("after 'XY;' [text 'ab-XY;']: captures = {:?} get(two)={:?}", m.captures().iter().map(|(k, v)| (k.clone(), String::from_utf8_lossy(v).to_string())).collect::<Vec<_>>(), m.get_capture("two").map(|v| String::from_utf8_lossy(v).to_string()));
+            let mut f = Matcher::new(fac.create_parser(g));
+            for b in b"ab-XY;" {
+                f.consume_token(*b as u32)?;
+            }
+            println!("fresh engine on 'ab-XY;': captures = {:?} get(two)={:?}", f.captures().iter().map(|(k, v)| (k.clone(), String::from_utf8_lossy(v).to_string())).collect::<Vec<_>>(), f.get_capture("two").map(|v| String::from_utf8_lossy(v).to_string()));
         }
         "force_bytes_loop" => {
             // greedy lexer: the first A swallows every "ab", the second A can never start,
